@@ -10,13 +10,15 @@ CONSTANTS Alphabet, MaxStr,            \* parser table: all strings up to MaxStr
           AKeys, ADepth,               \* path algebra universe
           VKeys, VSmallKeys, VDeep     \* nested values
 
-\* algebra keys: 'a' '0' '10' 'a.b' '-1' and the ints -10 -1 0 1 10 (text/int look-alikes on purpose)
+\* algebra keys: 'a' 'ab' '0' '01' '10' 'a.b' '-1' and the ints -10 -1 0 10 (text/int look-alikes and string prefixes on purpose)
 \* value keys:   'a' '0' 'a.b' '[0]' and the ints 0 1 -1
 IV_small == {-11, -10, -1, 0, 1, 10, 11}
 IV_tiny == {-1, 0, 10}
-AK_quick == {StrKey(<<7>>), StrKey(<<3>>), StrKey(<<4, 3>>), StrKey(<<7, 2, 8>>), StrKey(<<1, 4>>),
-             IntKey(-10), IntKey(-1), IntKey(0), IntKey(1), IntKey(10)}
-AK_thorough == AK_quick \cup {StrKey(<<8>>), StrKey(<<1, 4, 3>>), StrKey(<<5, 3, 6>>), StrKey(<<9>>), IntKey(11), IntKey(-11)}
+\* 'ab' and '01' are there because 'a' / '0' are proper STRING prefixes of them (and of the printed paths): prefix
+\* tests, '-' and parent must follow the key sequences, not the printed text
+AK_quick == {StrKey(<<7>>), StrKey(<<7, 8>>), StrKey(<<3>>), StrKey(<<3, 4>>), StrKey(<<4, 3>>), StrKey(<<7, 2, 8>>), StrKey(<<1, 4>>),
+             IntKey(-10), IntKey(-1), IntKey(0), IntKey(10)}
+AK_thorough == AK_quick \cup {StrKey(<<8>>), StrKey(<<1, 4, 3>>), StrKey(<<5, 3, 6>>), StrKey(<<9>>), StrKey(<<9, 7>>), IntKey(1), IntKey(11), IntKey(-11)}
 VK_quick == {StrKey(<<7>>), StrKey(<<3>>), StrKey(<<7, 2, 8>>), StrKey(<<5, 3, 6>>), IntKey(0), IntKey(1), IntKey(-1)}
 VK_thorough == VK_quick \cup {StrKey(<<9>>), StrKey(<<8, 5, 2, 6>>), IntKey(10), StrKey(<<1, 4>>)}
 VS_quick == {StrKey(<<7>>), IntKey(0), StrKey(<<7, 2, 8>>)}
